@@ -93,4 +93,10 @@ def run(ctx):
         rep.anchor_missing('R10.e', 'call to decode_varint_slice')
     else:
         rep.bad('R10.e', key, '', 'decode_varint_slice (asserting preconditions) is called from %s; only decode_varint establishes them' % sorted(callers))
+    import gen_thrift
+    gprog, g, files = gen_thrift.load()
+    gb = [b for b in gprog.bodies.values() if b.crate == 'vgen' and (re.search(r'prost::Message>::(merge_field|clear)', b.key) or (b.name == 'merge' and b.kind == 'AssocFn' and not b.impl_trait and 'n_p_' in b.key))]
+    if len(gb) < 90:
+        rep.anchor_missing('G10.a', 'generated protobuf merge bodies in the corpus harness (found %d)' % len(gb))
+    audit.audit_generated(rep, 'G10.a', sorted(gb, key=lambda b: b.id), audited, lambda b: b.key.split('::')[-1])
     return rep
